@@ -125,12 +125,20 @@ def step (civil : CivilFn) (s : Sched) : Op → Sched × Out
 
 def minuteNs : Int := 60000000000
 
-/-- the minutes visited by `for now := since.Truncate(time.Minute); now.Before(start.Add(period)); now = now.Add(time.Minute)`
-    (since, period in nanoseconds) -/
-def window (sinceNs periodNs : Int) : List Int :=
-  let start := sinceNs / minuteNs
-  let n := if periodNs ≤ 0 then 0 else ((periodNs + minuteNs - 1) / minuteNs).toNat
-  (List.range n).map (fun (i : Nat) => start + Int.ofNat i)
+/-- `for now := start; now.Before(end); now = now.Add(time.Minute)` on instants in nanoseconds;
+    the last argument only bounds the number of iterations -/
+def windowLoop (now end_ : Int) : Nat → List Int
+  | 0 => []
+  | fuel + 1 => if now < end_ then now :: windowLoop (now + minuteNs) end_ fuel else []
+
+/-- the instants visited by the loop of Schedule / JobSchedule: `start := since.Truncate(time.Minute)`,
+    `end := start.Add(period)` (since, period in nanoseconds; the loop makes at most `period` rounds) -/
+def windowNs (sinceNs periodNs : Int) : List Int :=
+  let start := (sinceNs / minuteNs) * minuteNs
+  windowLoop start (start + periodNs) periodNs.toNat
+
+/-- the same instants as minutes since the epoch -/
+def window (sinceNs periodNs : Int) : List Int := (windowNs sinceNs periodNs).map (· / minuteNs)
 
 /-- Cron.JobSchedule -/
 def jobSchedule (civil : CivilFn) (s : Sched) (name : Nat) (sinceNs periodNs : Int) : Option (List Int) :=
